@@ -134,6 +134,8 @@ class _Skel(object):
             if f.attr in ('wait', 'reset', 'abort'):
                 for a in node.args:
                     out += self.reads(a, env, funcs, depth)
+                if f.attr == 'wait' and (node.args or node.keywords):
+                    return out + ['(.ev .waitT)']      # barrier.wait(timeout)
                 return out + [f'(.ev .{f.attr})']
             raise _p2l.Untranslatable(f"barrier.{f.attr}")
         name = f.id if isinstance(f, _ast.Name) else None
@@ -340,7 +342,7 @@ class _Skel(object):
         raise _p2l.Untranslatable(f"statement {type(st).__name__}")
 
 
-_EV = {'.wait': 0, '.reset': 1, '.abort': 2, '.wBkg': 3, '.rBkg': 4, '.wRms': 5, '.rRms': 6}
+_EV = {'.wait': 0, '.reset': 1, '.abort': 2, '.wBkg': 3, '.rBkg': 4, '.wRms': 5, '.rRms': 6, '.waitT': 7}
 
 
 def _tokens(term):
@@ -397,10 +399,52 @@ def _skeleton_target(src_path, lean_names):
                 raise _p2l.Untranslatable(f"handler for {cls} branches")
             import re as _re
             evs = _re.findall(r'\(\.ev (\.\w+)\)', skel)
-            hs.append('("%s", %s, %s)' % (cls.replace('"', "'"), repr([_EV[e] for e in evs]),
-                                          'true' if '.raise_' in skel else 'false'))
-        out.append("def sf2Handlers : List (String × List Nat × Bool) :=\n  [" + ",\n   ".join(hs) + "]")
+            # calls made before barrier.abort() (anything that could itself raise and so skip the abort)
+            before = 0
+            found = False
+            for stt in h.body:
+                calls_here = [n for n in _ast.walk(stt) if isinstance(n, _ast.Call)]
+                is_abort = any(isinstance(c.func, _ast.Attribute) and c.func.attr == 'abort' for c in calls_here)
+                if is_abort:
+                    found = True
+                    before += sum(1 for c in calls_here if not (isinstance(c.func, _ast.Attribute) and c.func.attr == 'abort'))
+                    break
+                before += len(calls_here)
+            if not found:
+                before = 0
+            hs.append('("%s", %s, %s, %d)' % (cls.replace('"', "'"), repr([_EV[e] for e in evs]),
+                                              'true' if '.raise_' in skel else 'false', before))
+        out.append("def sf2Handlers : List (String × List Nat × Bool × Nat) :=\n  [" + ",\n   ".join(hs) + "]")
         info['sf2Handlers'] = []
+    if 'barrierCtor' in lean_names:
+        fn = sk.module_funcs.get('filter_mc_sharemem')
+        if fn is None:
+            raise _p2l.Untranslatable("filter_mc_sharemem not found")
+        ctors = [n for n in _ast.walk(fn) if isinstance(n, _ast.Call) and isinstance(n.func, _ast.Attribute)
+                 and n.func.attr == 'Barrier']
+        if len(ctors) != 1:
+            raise _p2l.Untranslatable(f"{len(ctors)} Barrier(...) constructors in filter_mc_sharemem")
+        c = ctors[0]
+        if any(isinstance(a, _ast.Starred) for a in c.args) or any(k.arg is None for k in c.keywords):
+            raise _p2l.Untranslatable("Barrier(*args / **kwargs)")
+        names = ['parties', 'action', 'timeout']
+        given = {names[k]: a for k, a in enumerate(c.args) if k < 3}
+        given.update({k.arg: k.value for k in c.keywords})
+        if 'parties' not in given or set(given) - set(names):
+            raise _p2l.Untranslatable("Barrier arguments the slicer does not know")
+        parties = _ast.unparse(given['parties']).replace('"', "'")
+        tmo = given.get('timeout')
+        if tmo is None or (isinstance(tmo, _ast.Constant) and tmo.value is None):
+            t = 'none'
+        elif isinstance(tmo, _ast.Constant) and isinstance(tmo.value, (int, float)) and tmo.value >= 0:
+            import math as _math
+            t = f'(some {int(_math.ceil(tmo.value))})'
+        else:
+            t = '(some 0)'
+        act = given.get('action')
+        a_ = 'false' if act is None or (isinstance(act, _ast.Constant) and act.value is None) else 'true'
+        out.append(f'def barrierCtor : String × Option Nat × Bool := ("{parties}", {t}, {a_})')
+        info['barrierCtor'] = []
     return "\n\n".join(out), info
 
 
@@ -432,5 +476,7 @@ TARGETS += [
     dict(file='AegeanTools/BANE.py', func='sigma_filter', mode='c07-skel', params={}, outputs=[('sigma_filter', 'sigmaSkel')],
          fallback={'sigmaSkel': 'def sigmaSkel : List Nat := Aegean.Model.C07.sigmaSkelHand'}),
     dict(file='AegeanTools/BANE.py', func='_sf2', mode='c07-skel', params={}, outputs=[('_sf2', 'sf2Handlers')],
-         fallback={'sf2Handlers': 'def sf2Handlers : List (String × List Nat × Bool) := Aegean.Model.C07.sf2HandlersHand'}),
+         fallback={'sf2Handlers': 'def sf2Handlers : List (String × List Nat × Bool × Nat) := Aegean.Model.C07.sf2HandlersHand'}),
+    dict(file='AegeanTools/BANE.py', func='filter_mc_sharemem', mode='c07-skel', params={}, outputs=[('Barrier', 'barrierCtor')],
+         fallback={'barrierCtor': 'def barrierCtor : String × Option Nat × Bool := Aegean.Model.C07.barrierCtorHand'}),
 ]
